@@ -17,7 +17,7 @@ from . import engine
 
 
 class Frame:
-    __slots__ = ('idx', 't', 'src', 'can_id', 'data', 'fd', 'ext', 'remote', 'error', 'lost', 'silenced')
+    __slots__ = ('idx', 't', 'src', 'can_id', 'data', 'fd', 'ext', 'remote', 'error', 'lost', 'silenced', 'thread')
 
     def __init__(self, idx, t, src, can_id, data, fd=False, ext=True, remote=False, error=False):
         self.idx = idx
@@ -31,6 +31,7 @@ class Frame:
         self.error = error
         self.lost = False
         self.silenced = False
+        self.thread = None
 
     # decoded identifier fields (plain arithmetic, independent of the repository)
     @property
@@ -94,6 +95,7 @@ class Bus:
                 self.runaway = dict(t=sim.now, src=src.name if src is not None else None, last=self.frames[-1].brief())
             raise engine.Runaway('node %s put more than %d frames on the bus' % (src.name if src is not None else None, self.max_frames))
         fr = Frame(len(self.frames), sim.now, src.name if src is not None else None, can_id, data, fd, ext, remote, error)
+        fr.thread = threading.get_ident()        # which thread handed the frame to the send backend
         self.frames.append(fr)
         if src is not None:
             self.sent_by[src.name] += 1
